@@ -44,9 +44,9 @@ COMPONENTS = {
 }
 SHRINK_EACH_IDENTITY = True  # one minimised replay per violation identity, not per clause
 TIERS = {
-    "quick": {"histories": 128, "budget_s": 55, "timeout": 120, "batch": 64, "shrink_s": 30,
+    "quick": {"histories": 512, "budget_s": 55, "timeout": 120, "batch": 64, "shrink_s": 30,
               "seqs": 100, "len": [4, 12]},
-    "thorough": {"histories": 960, "budget_s": 570, "timeout": 300, "batch": 64, "shrink_s": 60,
+    "thorough": {"histories": 4800, "budget_s": 570, "timeout": 300, "batch": 64, "shrink_s": 60,
                  "seqs": 120, "len": [6, 30]},
 }
 
